@@ -586,6 +586,75 @@ class Prov:
         return out
 
     # ---- LALRPOP transport bridge ---------------------------------------------
+    def _grammar_bridge(self, f, n, T, rest):
+        """Grammar-precise version of the bridge: the k-th (start, value, end)
+        parameter of the action named by a production `L = S1 .. Sm =>
+        ActionFn(N)` carries the value of Sk, i.e. the result of an action of
+        a production of Sk (nonterminal) or the payload of the token Sk
+        (terminal).  None when the action is not the direct action of a
+        production (inner actions are reached through their wrappers) or the
+        shapes do not line up — the caller then falls back on types."""
+        thunk = getattr(self.prog, "grammar_thunk", None)
+        if thunk is None:
+            return None
+        if getattr(self, "_gidx", None) is None:
+            try:
+                self._gidx = _prod_index(thunk())
+            except Exception:
+                self._gidx = ({}, {})
+        by_action, by_lhs = self._gidx
+        try:
+            num = int(f.path.rsplit("__action", 1)[1])
+        except ValueError:
+            return None
+        prods = by_action.get(num)
+        if not prods:
+            return None
+        triples = [i for i in range(1, f.arg_count + 1)
+                   if i < len(f.locals) and _triple_payload(f.locals[i]) is not None]
+        if n not in triples:
+            return None
+        k = triples.index(n)
+        out = set()
+        for lhs, syms in prods:
+            if len(syms) != len(triples):
+                return None
+            s = syms[k]
+            if s.startswith('"'):
+                gr = thunk()
+                var = gr.terminals.get(s[1:-1])
+                tok = self.prog.adts.get("lexer::Token")
+                if var is None or not tok:
+                    return None
+                if self._agg_index is None:
+                    self._build_agg_index()
+                if T == "lexer::Token":
+                    for (g, bb, i, kd, ops) in self._agg_index.get(("lexer::Token", var), []):
+                        out.add(("agg", g.path, bb, i, "lexer::Token", var))
+                    continue
+                vinfo = [v for v in tok["variants"] if v["name"] == var]
+                if not vinfo:
+                    return None
+                ftys = [fd["ty"] for fd in vinfo[0]["fields"]]
+                for (g, bb, i, kd, ops) in self._agg_index.get(("lexer::Token", var), []):
+                    if len(ftys) == 1:
+                        out |= self._operand(g, ops[0], rest)
+                    elif rest and rest[0] != ANY and rest[0][0] == "f" and rest[0][1] < len(ops):
+                        out |= self._operand(g, ops[rest[0][1]], rest[1:])
+                    else:
+                        for o in ops:
+                            out |= self._operand(g, o, (ANY,))
+            else:
+                acts = by_lhs.get(s)
+                if not acts:
+                    return None
+                for a in sorted(acts):
+                    g = self.prog.fns.get(f.path.rsplit("__action", 1)[0] + "__action%d" % a)
+                    if g is None or not g.full:
+                        return None
+                    out |= self._local(g, 0, rest)
+        return frozenset(out)
+
     def _lalrpop_bridge(self, f, n, pi):
         """Parameters of the generated semantic actions are (start, value,
         end) triples popped from the parser stack by generated code we do not
@@ -604,6 +673,13 @@ class Prov:
             return frozenset([("const", "location", "usize")])
         T = m
         rest = pi[1:]
+        precise = self._grammar_bridge(f, n, T, rest)
+        if precise is not None:
+            return precise
+        if getattr(self.prog, "grammar_thunk", None) is not None \
+                and any(c.fn.full for c in self.prog.callers_of(f.path)):
+            # an inner action: its arguments are passed by a wrapper action
+            return None
         out = set()
         found = False
         for g in self.prog.full_fns(generated=True):
@@ -632,6 +708,17 @@ class Prov:
         if not found:
             return None
         return frozenset(out)
+
+
+def _prod_index(gr):
+    """action number -> set of (lhs, tuple(symbols)) over all sub-parsers, and
+    lhs -> set of action numbers."""
+    by_action, by_lhs = {}, {}
+    for mod in gr.mods:
+        for lhs, syms, act in gr.productions(mod):
+            by_action.setdefault(act, set()).add((lhs, tuple(syms)))
+            by_lhs.setdefault(lhs, set()).add(act)
+    return by_action, by_lhs
 
 
 def _triple_payload(ty):
